@@ -108,7 +108,7 @@ func runC09(w *World, r *Report, tier string) {
 			continue
 		}
 		nWhole++
-		cons := fmt.Sprintf("%s#store:Session.SMState#%d", w.funcKey(a.Fn), nWhole)
+		cons := fmt.Sprintf("%s#store:Session.SMState#%d", w.ownerKey(a.Fn), nWhole)
 		fields, al := complitFields(a.Val)
 		switch {
 		case isZeroValue(a.Val):
@@ -124,14 +124,18 @@ func runC09(w *World, r *Report, tier string) {
 		}
 		// no whole-state store may precede a successful resumption in Session.resume
 		if w.ownerKey(a.Fn) == "xmpp.(*Session).resume" {
-			toTrue := reachable(after(a.Instr), func(in ssa.Instruction) bool {
-				ret, ok := in.(*ssa.Return)
+			toTrue := false
+			if err := walkPaths(after(a.Instr), nil, nil, 50000, func(path []ssa.Instruction, end pathEnd) {
+				ret, ok := path[len(path)-1].(*ssa.Return)
 				if !ok || len(ret.Results) != 1 {
-					return false
+					return
 				}
-				b, isC := boolConst(ret.Results[0])
-				return !isC || b
-			}, nil, nil)
+				if b, isC := boolConst(rres(path, ret)[0]); !isC || b {
+					toTrue = true
+				}
+			}); err != nil {
+				toTrue = true
+			}
 			r.Check(!toTrue, "O2", cons+"#not-on-resumed-path", w.ipos(a.Instr), "the SM state (and with it the inbound count) is reset on a path that reports a successful resumption", "unreachable from here: return true")
 		}
 	}
